@@ -7,7 +7,7 @@ bin/fxcheck -prop "$P" -tier thorough
 rc=$?
 if ls variants/$P/*.json >/dev/null 2>&1; then
   TMP=$(mktemp /var/tmp/selftest.XXXXXX.json)
-  python3 scripts/variants.py -p "$P" -j 8 --json "$TMP" | grep -E '^(MISSED|INVALID|SELFTEST)' | sed 's/^MISSED/SELFTEST-MISS/'
+  python3 scripts/variants.py -p "$P" -j 8 --json "$TMP" | grep -E '^(MISSED|INVALID|FALSE_ALARM|SELFTEST)' | sed 's/^MISSED/SELFTEST-MISS/; s/^FALSE_ALARM/SELFTEST-FALSE-ALARM/'
   python3 - "$P" "$TMP" <<'PY'
 import json,sys
 p,tmp=sys.argv[1],sys.argv[2]
